@@ -39,7 +39,8 @@ Family (stated; all members enumerated, VERIF_SEED only permutes the order)
     k=1 named + anonymous: double states (13) x context: quick none; thorough <= 2 patterns
                      + the quoted "*" (a literal for GNU ld) alone and opposite a real *
     k=2: quick: single states, uncrossed (16) x context <= 1 pattern, (+crossed) x no context, none;
-         thorough: double states (+crossed, 251) x context <= 1 x none; single uncrossed x <= 1 x chain
+         thorough: double states, uncrossed x context <= 1, (+crossed) x no context, none; single
+         states, uncrossed x <= 1 x chain
     k=3: quick: single states, uncrossed (70) x no context x none;
          thorough: single states (+crossed, 118) x context <= 1 x none; uncrossed x no context x chain
   every script is linked by wild a second time with -soname=libt.so.1 (tables' consistency only).
@@ -197,7 +198,7 @@ def dup_family(thorough):
                       (("star",), ("qstar",))):
             fam.append((kind, 1, (lists,), "none"))
     if thorough:
-        add(("dup",), 2, True, 1, ("none",), True)
+        add(("dup",), 2, True, 1, ("none",), True, crossed_depth=0)
         add(("dup",), 2, False, 1, ("chain",), False)
         add(("dup",), 3, False, 1, ("none",), True)
         add(("dup",), 3, False, 0, ("chain",), False)
@@ -502,11 +503,18 @@ def followed(ms, kind, state):
 
 def reduced(ms, kind, ld_state, wild_state):
     """Part B scripts repeat rules, so the full chain of matching rules would give one root cause
-    dozens of keys.  Keep the rules GNU ld and wild can have followed; of several equal rules that
-    all lie on one side (earlier / later nodes) of the other linker's rules keep the nearest."""
+    dozens of keys.  Keep the rules GNU ld and wild can have followed (of these only the narrowest
+    kind); of several equal rules that all lie on one side (earlier / later nodes) of the other
+    linker's rules keep the nearest.  Naming only: the verdict is taken before this is called."""
     fl, fw = followed(ms, kind, ld_state), followed(ms, kind, wild_state)
     if not fl or not fw:
         return ms
+
+    def rank(i):     # exact < glob < star: every linker lets the narrower kind of rule win
+        lab = ms[i][1]
+        return 2 if "star" in lab else 1 if "glob" in lab else 0
+    fl = [i for i in fl if rank(i) == min(map(rank, fl))]
+    fw = [i for i in fw if rank(i) == min(map(rank, fw))]
 
     def thin(mine, other):
         lo, hi = min(ms[i][0] for i in other), max(ms[i][0] for i in other)
